@@ -1,5 +1,5 @@
 SPECIFICATION Spec
-CONSTANTS MaxN = 3  MaxC = 3  FullN = 2  SampleK = 1  SampleSet = "q"  Variant = "internal_faces"  AssertFaceConnectedSuffices = FALSE
+CONSTANTS MaxN = 1  MaxC = 0  FullN = 2  SampleK = 1  SampleSet = "n"  Variant = "internal_faces"  AssertFaceConnectedSuffices = FALSE
 INVARIANT TypeOK
 INVARIANT XFastest
 INVARIANT RoundTrip
